@@ -263,6 +263,29 @@ def search(ctx):
         if got != want:
             ctx.violation("C09:rule:cluster", "%d spheres with largest separation %.4f x (30 largest radii) get %s; the documented rule says %s" % (m, dmax / (30 * rmax), got, want),
                           dict(kind="rule-cluster", members=[repr(s) for s in members], ratio=float(dmax / (30 * rmax))))
+    # subclasses are instances too: a sphere given by layer thicknesses is a sphere, a rigid cluster a sphere collection
+    from holopy.scattering.scatterer import LayeredSphere, RigidCluster
+    sub_cases = [(LayeredSphere(n=(1.5, 1.4), t=(0.3, 0.1), center=(0, 0, 1)), "Mie"),
+                 (RigidCluster(Spheres([Sphere(n=1.5, r=0.1, center=(0, 0, 0)), Sphere(n=1.5, r=0.1, center=(0.5, 0, 0))], warn=False), translation=(0, 0, 5)), "Multisphere"),
+                 (RigidCluster(Spheres([Sphere(n=1.5, r=0.1, center=(0, 0, 0)), Sphere(n=1.5, r=0.1, center=(9.0, 0, 0))], warn=False), translation=(0, 0, 5)), "Mie")]
+    for obj, want in sub_cases:
+        ctx.tried("rule-subclass", (type(obj).__name__, want))
+        r = impl_call(lambda: type(determine_default_theory_for(obj)).__name__)
+        got = r if isinstance(r, str) else "err:" + r[1]
+        if got != want:
+            ctx.violation("C09:rule:subclass:%s" % type(obj).__name__, "default theory for a %s is %s, the documented rule (it is a %s) says %s" % (
+                type(obj).__name__, got, "sphere" if want == "Mie" and isinstance(obj, LayeredSphere) else "sphere collection", want), dict(kind="rule-subclass", cls=type(obj).__name__))
+    try:
+        ls = LayeredSphere(n=(1.5, 1.4), t=(0.3, 0.1), center=(0.3, 0.2, 5.0))
+        dls = detector_grid((2, 2), 0.3)
+        h_auto = impl_call(lambda: calc_holo(dls, ls, medium_index=1.33, illum_wavelen=0.66, illum_polarization=(1, 0)).values)
+        h_mie = calc_holo(dls, ls, medium_index=1.33, illum_wavelen=0.66, illum_polarization=(1, 0), theory=Mie()).values
+        ctx.tried("rule-subclass", ("LayeredSphere", "calc_holo"))
+        if isinstance(h_auto, tuple) or not np.array_equal(h_auto, h_mie):
+            ctx.violation("C09:auto-vs-explicit:LayeredSphere", "calc_holo with no theory named on a LayeredSphere %s; naming Lorenz-Mie gives a hologram" % (
+                "raises " + h_auto[1] if isinstance(h_auto, tuple) else "differs from the result of naming Lorenz-Mie"), dict(kind="rule-subclass", cls="LayeredSphere"))
+    except Exception as ex:
+        ctx.notes.append("LayeredSphere auto probe raised %r" % (ex,))
     # other shapes and non-scatterers
     for obj, want in ((Ellipsoid(n=1.5, r=(0.3, 0.4, 0.5), center=(0, 0, 1)), "DDA" if HAVE_ADDA else "err:DependencyMissing"),
                       ("not a scatterer", "err:AutoTheoryFailed"), (Spheroid(n=1.5, r=(0.4, 0.6), center=(0, 0, 1)), "Tmatrix"),
